@@ -2,7 +2,7 @@
 
 import ast
 
-from ..astutil import call_attr, calls_in, const_value, norm, param_names, walk_own
+from ..astutil import call_recv, call_attr, calls_in, const_value, norm, param_names, walk_own
 from ..selftest import Mutant
 
 ID = "C38"
@@ -66,6 +66,24 @@ def run(ctx):
             ctx.info("write-group", f"{rel}:{q}", f"tabled exception: {WG_EXCEPTIONS[q]} (overrides {[m for m in WG if own[m]]})")
         else:
             ctx.check("write-group-triple", f"{rel}:{q}", n_own in (0, 3), f"{q} overrides all or none of {WG}", construct=str(own), message=f"{q} overrides only part of the write-group methods: {own}")
+        # whatever per-write-group state commit_write_group resets, abort_write_group resets too: a retry after an
+        # aborted group must start from the same state as after a committed one
+        fc_ = repo.module(rel).get(f"{q}.commit_write_group")
+        fa_ = repo.module(rel).get(f"{q}.abort_write_group")
+        if fc_ is not None and fa_ is not None:
+            def resets(f):
+                out = set()
+                for n in walk_own(f):
+                    if isinstance(n, ast.Assign) and isinstance(n.targets[0], ast.Attribute) and norm(n.targets[0].value) == "self" and isinstance(n.value, ast.Constant) and n.value.value is None:
+                        out.add(n.targets[0].attr)
+                    if isinstance(n, ast.Call) and call_attr(n) == "clear" and (call_recv(n) or "").startswith("self."):
+                        out.add(call_recv(n)[5:])
+                    if isinstance(n, ast.Assign) and isinstance(n.targets[0], ast.Attribute) and norm(n.targets[0].value) == "self" and norm(n.value) in ("set()", "{}", "[]", "dict()", "list()"):
+                        out.add(n.targets[0].attr)
+                return out
+
+            rc, ra = resets(fc_), resets(fa_)
+            ctx.check("write-group-reset-parity", f"{rel}:{q}.abort_write_group", rc <= ra, f"state reset by commit_write_group {sorted(rc)} is also reset by abort_write_group {sorted(ra)}", construct=str(sorted(rc - ra)), message=f"{q}.commit_write_group resets {sorted(rc - ra)} but abort_write_group does not: after an aborted write group the next one starts with stale per-group state (e.g. keys believed to be written are never written again) and this backend answers differently from the others")
     ups = _subclasses(repo, "CacheUpdater")
     ctx.require(len(ups) >= 4, f"only {len(ups)} CacheUpdater classes found (hand-confirmed: 4)")
     for rel, q in ups:
@@ -85,11 +103,26 @@ def run(ctx):
                         kinds |= {e.value for e in c.elts if isinstance(e, ast.Constant) and isinstance(e.value, str)}
         ctx.check("updater-kinds", where, kinds == KINDS, f"{q}.add_object dispatches kinds {sorted(kinds)}", construct=str(sorted(kinds)), message=f"{q}.add_object handles kinds {sorted(kinds)}, siblings handle {sorted(KINDS)}")
         ctx.check("updater-rejects-unknown", where, any(isinstance(n, ast.Raise) and "AssertionError" in norm(n) for n in walk_own(fn)), f"{q}.add_object raises on an unknown kind")
+        # where a kind branch writes the sha -> key record it also writes the key -> sha record on every continuation
+        # (an early return between the two drops the reverse entry)
+        from ..cfg import build_cfg
+        from ..rules import calling
+
+        g = build_cfg(fn)
+        for kind in ("commit", "blob"):
+            fw_ = calling(g, attr="_add_git_sha", argpred=lambda c, k=kind: len(c.args) > 1 and const_value(c.args[1]) == k.encode())
+            bw_ = calling(g, attr="_add_node", argpred=lambda c, k=kind: c.args and isinstance(c.args[0], ast.Tuple) and c.args[0].elts and const_value(c.args[0].elts[0]) == k.encode())
+            if fw_:
+                gx = g.without_exc_edges()
+                r_ = gx.reach(fw_, avoid=set(bw_))
+                ctx.check("updater-both-directions", where, bool(bw_) and gx.exit not in r_, f"{q}.add_object: after the sha -> {kind} record the ({kind}, …) -> sha record is written on every path", message=f"{q}.add_object can record the git sha of a {kind} without the reverse ({kind} key -> sha) entry: lookup_{'blob_id' if kind == 'blob' else 'commit'} raises KeyError on this backend for objects the other backends know")
         rf = repo.resolve_method(rel, q, "finish")
         ctx.check("updater-finish", f"{rel}:{q}.finish", rf is not None and (rf[0], rf[1]) != (CF, "CacheUpdater"), f"{q} implements finish()")
 
 
 MUTANTS = [
+    Mutant("index updater skips the blob key for known content", CF, "            self.cache.idmap._add_git_sha(hexsha, b\"blob\", bzr_key_data)\n            self.cache.idmap._add_node(", "            self.cache.idmap._add_git_sha(hexsha, b\"blob\", bzr_key_data)\n            if bzr_key_data is None:\n                return\n            self.cache.idmap._add_node(", expect="updater-both-directions"),
+    Mutant("per-group state cleared on commit only", CF, "        self._index.insert_index(0, index)\n        self._builder = None\n        self._name = None\n", "        self._index.insert_index(0, index)\n        self._builder = None\n        self._name = None\n        self._seen = set()\n", expect="write-group-reset-parity"),
     Mutant("neutral: helper method added to a backend", CF, "class IndexGitShaMap(GitShaMap):", "class IndexGitShaMap(GitShaMap):\n    def _placeholder(self):\n        pass\n", neutral=True),
     Mutant("Tdb backend loses lookup_blob_id", CF, "    def lookup_blob_id(self, fileid, revision):\n        \"\"\"Retrieve a Git blob SHA by file ID and revision from TDB.", "    def _lookup_blob_id_unused(self, fileid, revision):\n        \"\"\"Retrieve a Git blob SHA by file ID and revision from TDB.", expect="missing-override", where="TdbGitShaMap.lookup_blob_id"),
     Mutant("arity of one backend's lookup_git_sha changed", CF, "class DictGitShaMap(GitShaMap):", "class DictGitShaMapBase(GitShaMap):\n    def lookup_git_sha(self, sha, strict):\n        raise KeyError(sha)\n\n\nclass DictGitShaMap(DictGitShaMapBase):", expect="arity"),
